@@ -624,7 +624,23 @@ pub fn clone_indep<P: PType>(st: &MapSt<P>, cx: &Cx) -> (Vec<Viol>, u64) {
     for op in ops {
         let mut c = orig.clone();
         let mut model = st.model.clone();
-        let _ = crate::ops::apply(&mut c, &mut model, &st.walk, op, 9000, cx);
+        // a clone is a fully usable map: the operation must behave on it as on the original
+        match crate::viol::guarded(|| {
+            let vs = crate::ops::apply(&mut c, &mut model, &st.walk, op, 9000, cx);
+            let bad = compare_entries("PrefixMap::iter", &crate::ops::collect_iter(&c), &model.entries()).is_some() || c.len() != model.len();
+            (vs, bad)
+        }) {
+            Err(msg) => {
+                out.push(Viol::new("C19", "Clone::clone", "clone-unusable", format!("{} on a clone panicked: {msg}", op.describe(cx.uni))));
+                break;
+            }
+            Ok((vs, bad)) => {
+                if bad || vs.iter().any(|v| v.prop == "C01") {
+                    out.push(Viol::new("C19", "Clone::clone", "clone-behaves-differently", format!("{} on a clone does not behave as on the original", op.describe(cx.uni))));
+                    break;
+                }
+            }
+        }
         n += 1;
         let after = orig.verif_dump();
         if !same(&before, &after) {
